@@ -1667,6 +1667,20 @@ class CodeGenerator(NodeVisitor):
         # it is only valid if it references a Namespace object. Emit a check for
         # that for each ref here, before assignment code is emitted. This can't
         # be done in visit_NSRef as the ref could be in the middle of a tuple.
+        # the namespace check runs before the assignment, it can't hold for
+        # a name that the same statement rebinds
+        names = {
+            n.name for n in node.target.find_all(nodes.Name) if n.ctx == "store"
+        }
+
+        for nsref in node.target.find_all(nodes.NSRef):
+            if nsref.name in names:
+                self.fail(
+                    f"can't assign to {nsref.name!r} and to an attribute of it"
+                    " in the same statement",
+                    node.lineno,
+                )
+
         self._namespace_checks(node.target, frame)
         self.newline(node)
         self.visit(node.target, frame)
